@@ -1,6 +1,6 @@
 """What each property's check runs: bounded model checking of the specification (L1), generation of cases,
 replay on the real code, trace validation (L2 + L3), verdict and evidence."""
-import json, os, random, hashlib, time, shutil, subprocess
+import unicodedata, json, os, random, hashlib, time, shutil, subprocess
 from concurrent.futures import ThreadPoolExecutor
 
 from .common import *      # noqa
@@ -33,6 +33,13 @@ def build_pools(ck, tier, rnd, langs=gen.LANGS, tag="x"):
         for t in rnd.sample(base, max(1, len(base) // 3)) if lang not in ("en", "none") else rnd.sample(base, min(len(base), 20)):
             ts.append(gen.upper_title(t, rnd))
             ts.append(" ".join(w[:1].upper() + w[1:] for w in t.split(" ")))
+        # the same titles typed on a keyboard that sends accents as separate combining marks (Unicode NFD, which is wider
+        # than the language's own composition table), fully and letter by letter
+        for t in rnd.sample(base, max(1, len(base) // 3)) if lang not in ("en", "none") else rnd.sample(base, min(len(base), 10)):
+            nfd = unicodedata.normalize("NFD", t)
+            if nfd != t:
+                ts.append(nfd)
+                ts.append("".join(unicodedata.normalize("NFD", ch) if rnd.random() < 0.5 else ch for ch in t))
         tab = gen.LANGTAB[lang]
         rows = [a for a, b in tab["reduce"]] + [b for a, b in tab["compose"]]
         for a in rnd.sample(rows, min(len(rows), 10)):
